@@ -1,6 +1,7 @@
 import Proofs.SeqSteps
 import Proofs.SeqStore2
 import Proofs.SeqDemo
+import Proofs.SeqRecover
 /-! C04 — Object storage is always a complete, exact rendering of the leaf sequence.
 
 Exactness is enforced by the acceptor itself: `Seq.step` accepts a tile / bundle / checkpoint upload
@@ -91,5 +92,35 @@ theorem C04_leaf_times (slots : List Slot) (ts : Nat) : ∀ l ∈ leavesOf slots
 
 example : bundleOK 0 [⟨7, 7, 105⟩]
     [(⟨.data, 0, 1⟩, [⟨7, 7, 105⟩]), (⟨.names, 0, 1⟩, [⟨7, 7, 105⟩]), (⟨.hash 0, 0, 1⟩, [⟨7, 7, 105⟩])] = true := by decide
+
+/-- **Exactness of every tile object.** At every moment of every run without tampering, every tile
+    object in the store — whoever wrote it: a round, or a restart re-applying a staged bundle — is
+    immutable and is exactly the rendering, for its coordinate, of a tree committed in the lock store
+    that covers the tile; all committed trees are prefixes of the newest one, so it is the rendering
+    of the lock checkpoint's tree too (`C04_tiles_render_lock_tree`). -/
+theorem C04_tiles_only_committed {s : Sys} (r : Reachable s) (ht : s.tampered = false) :
+    ∀ t o imm, s.store (.tile t) = some (o, imm) →
+      imm = true ∧ ∃ c ∈ s.lockHist, t.hi ≤ c.leaves.length ∧ o = .slice (t.slice c.leaves) :=
+  (inv4_reachable r ht).tiles
+
+/-- every tile object is the rendering of the lock checkpoint's tree at its coordinate -/
+theorem C04_tiles_render_lock_tree {s : Sys} (r : Reachable s) (ht : s.tampered = false) (c : Ck)
+    (hl : s.lock = some c) :
+    ∀ t o imm, s.store (.tile t) = some (o, imm) →
+      imm = true ∧ t.hi ≤ c.leaves.length ∧ o = .slice (t.slice c.leaves) := by
+  intro t o imm hs
+  obtain ⟨himm, c', hc', hhi, ho⟩ := (inv4_reachable r ht).tiles t o imm hs
+  have hpre := (lock_extends_hist (inv_reachable r) hl c' hc').1
+  exact ⟨himm, Nat.le_trans hhi hpre.length_le, by rw [ho, slice_prefix hpre hhi]⟩
+
+/-- the checkpoint object is always a mutable checkpoint, present once log creation has completed;
+    staging objects are immutable non-empty bundles; there are no legacy staging objects -/
+theorem C04_object_shapes {s : Sys} (r : Reachable s) (ht : s.tampered = false) :
+    (∀ o imm, s.store .ckpt = some (o, imm) → imm = false ∧ ∃ c, o = .ck c) ∧
+    (s.pubHist ≠ [] → ∃ c imm, s.store .ckpt = some (.ck c, imm)) ∧
+    (∀ tr o imm, s.store (.staging tr) = some (o, imm) → imm = true ∧ ∃ items, o = .bundle items ∧ items ≠ []) ∧
+    (∀ t, s.store (.legacyStaging t) = none) :=
+  let h4 := inv4_reachable r ht
+  ⟨h4.ckShape, h4.ckSome, h4.stagedNe, h4.legacy⟩
 
 end C04
